@@ -22,6 +22,8 @@ EXPLANATION = (
     "suffix after using them; (g) LaTeXToPDF, which follows Write, does not default a missing output.changed to a falsy value: the "
     "missing-flag handler sets the flag to True or to a comparison of the modification times of the .tex and the .pdf.  Does not decide file contents or mtimes over histories.")
 RULES = {
+    "C19-i": "FILE NAMES: no name in lena.output is derived with strip/lstrip/rstrip and a multi-character word as argument (a set of "
+             "characters, not a suffix: 'x_pdf.pdf'.rstrip('.pdf') is 'x_')",
     "C19-h": "GUARD: LaTeXToPDF yields a pdf only for a process seen to have terminated with return code 0",
     "C19-a": "PAIR: a write in Write.run is followed by output.changed = True before the yield",
     "C19-b": "sticky flag: Write stores True or the incoming value; converters store False only when the incoming flag is falsy; groups use any()",
@@ -680,7 +682,37 @@ def check_only_successful_yield(ctx):
     ctx.instances_floor("C19-h", n, 1, "yielding paths of pop_returned_processes")
 
 
+def check_name_derivation(ctx):
+    """C19-i.  The image PDFToPNG writes, tests for existence and yields is named after the pdf.  str.rstrip(".pdf") strips
+    the characters '.', 'p', 'd', 'f' from the end, so plots called x_pdf / x_ppf / eff lose part of their name, two of them
+    get the same image and the yielded file is not output_directory/filename.png.  The argument of strip/lstrip/rstrip is a
+    character set; a constant of several characters containing a letter or digit is a mistaken suffix/prefix removal."""
+    n = 0
+    bad = 0
+    for mod, fn in ctx.tree.functions():
+        if not mod.name.startswith("lena.output"):
+            continue
+        for c in A.walk_local(fn):
+            if isinstance(c, ast.Call) and isinstance(c.func, ast.Attribute) and c.func.attr in ("strip", "lstrip", "rstrip"):
+                n += 1
+                if len(c.args) == 1 and isinstance(c.args[0], ast.Constant) and isinstance(c.args[0].value, str) \
+                        and len(c.args[0].value) > 1 and any(ch.isalnum() for ch in c.args[0].value):
+                    bad += 1
+                    ctx.violation("C19-i", c, "%s derives a name with `%s`: the argument of %s is a set of characters, not a %s -- every "
+                                  "trailing/leading character from %r is removed, so a file name ending in one of these letters is "
+                                  "cut short (two plots may get one image, and the yielded file is not the one named by the context)" % (
+                                      A.qualname(fn), A.short(c, 50), c.func.attr, "suffix" if c.func.attr != "lstrip" else "prefix",
+                                      c.args[0].value), construct="strip-word:%s" % A.qualname(fn))
+    ctx.note("strip_calls_in_lena_output", n)
+    names = [c for mod, fn in ctx.tree.functions() if mod.name == "lena.output.pdf_to_png" for c in A.walk_local(fn)
+             if isinstance(c, ast.Call) and isinstance(c.func, ast.Attribute) and c.func.attr in ("replace", "splitext", "rstrip", "strip", "removesuffix")]
+    ctx.instances_floor("C19-i", len(names), 1, "derivations of the image name from the pdf name in lena.output.pdf_to_png")
+    if not bad:
+        ctx.ok("C19-i", ("lena.output", "<package>"), "no name derived by stripping a word (%d strip calls)" % n)
+
+
 def check(ctx):
+    check_name_derivation(ctx)
     check_only_successful_yield(ctx)
     check_absent_flag(ctx)
     check_template_freshness(ctx)
@@ -692,6 +724,7 @@ def check(ctx):
 
 
 VARIANTS = [
+    M("png-name-by-rstrip", "lena/output/pdf_to_png.py", "                data = pdf_name.replace(\".pdf\", \"\")", "                data = pdf_name.rstrip(\".pdf\")", ["C19-i"]),
     M("latex-yield-failed", "lena/output/latex_to_pdf.py", "                    if returncode:\n                        # an error occurred\n                        del processes[filename]\n                        continue\n                    else:",
       "                    if returncode and verbose:\n                        # an error occurred\n                        del processes[filename]\n                        continue\n                    else:", ["C19-h"]),
     M("make-filename-name-present-by-truth", "lena/output/make_filename.py", "                if \"output\" in context and key in context[\"output\"]:\n                    if not self._overwrite:\n                        continue", "                if not self._overwrite and lena.context.get_recursively(\n                        context, \"output.\" + key, None):\n                    continue", ["C19-e"]),
